@@ -21,7 +21,65 @@ pub trait Backend {
     /// `stat` + "is a regular file"; errors are indistinguishable from "no" (as in `Path::is_file`).
     fn is_file(&self, path: &Path) -> bool;
     fn is_dir(&self, path: &Path) -> bool;
-    fn open(&self, path: &Path) -> io::Result<Box<dyn Read>>;
+    fn open(&self, path: &Path) -> io::Result<Opened>;
+}
+
+/// What a simulated `open` hands back: the byte stream and what `fstat` would say about it.
+pub struct Opened {
+    pub reader: Box<dyn Read>,
+    pub is_dir: bool,
+    pub len: u64,
+}
+
+/// `std::fs::Metadata` look-alike (the few questions code asks about a file it has just opened).
+#[derive(Clone, Debug)]
+pub enum Metadata {
+    Real(std::fs::Metadata),
+    Sim { is_dir: bool, len: u64 },
+}
+
+impl Metadata {
+    pub fn is_file(&self) -> bool {
+        match self {
+            Metadata::Real(m) => m.is_file(),
+            Metadata::Sim { is_dir, .. } => !is_dir,
+        }
+    }
+    pub fn is_dir(&self) -> bool {
+        match self {
+            Metadata::Real(m) => m.is_dir(),
+            Metadata::Sim { is_dir, .. } => *is_dir,
+        }
+    }
+    pub fn is_symlink(&self) -> bool {
+        match self {
+            Metadata::Real(m) => m.is_symlink(),
+            Metadata::Sim { .. } => false,
+        }
+    }
+    #[allow(clippy::len_without_is_empty)]
+    pub fn len(&self) -> u64 {
+        match self {
+            Metadata::Real(m) => m.len(),
+            Metadata::Sim { len, .. } => *len,
+        }
+    }
+}
+
+/// `std::fs::metadata` (follows nothing in the simulated tree: there are no symlinks).
+pub fn metadata<P: AsRef<Path>>(path: P) -> io::Result<Metadata> {
+    match backend() {
+        Some(b) => {
+            if b.is_file(path.as_ref()) {
+                Ok(Metadata::Sim { is_dir: false, len: 0 })
+            } else if b.is_dir(path.as_ref()) {
+                Ok(Metadata::Sim { is_dir: true, len: 0 })
+            } else {
+                Err(io::Error::new(io::ErrorKind::NotFound, "No such file or directory (simfs)"))
+            }
+        }
+        None => std::fs::metadata(path).map(Metadata::Real),
+    }
 }
 
 thread_local! {
@@ -39,7 +97,7 @@ fn backend() -> Option<Rc<dyn Backend>> {
 
 enum Inner {
     Real(std::fs::File),
-    Sim(Box<dyn Read>),
+    Sim(Box<dyn Read>, Metadata),
 }
 
 /// `std::fs::File` look-alike (read side only; everything else is the real file).
@@ -49,7 +107,7 @@ impl std::fmt::Debug for File {
     fn fmt(&self, f: &mut std::fmt::Formatter<'_>) -> std::fmt::Result {
         match &self.0 {
             Inner::Real(r) => r.fmt(f),
-            Inner::Sim(_) => f.write_str("File(sim)"),
+            Inner::Sim(..) => f.write_str("File(sim)"),
         }
     }
 }
@@ -57,7 +115,7 @@ impl std::fmt::Debug for File {
 impl File {
     pub fn open<P: AsRef<Path>>(path: P) -> io::Result<File> {
         match backend() {
-            Some(b) => b.open(path.as_ref()).map(|r| File(Inner::Sim(r))),
+            Some(b) => b.open(path.as_ref()).map(|o| File(Inner::Sim(o.reader, Metadata::Sim { is_dir: o.is_dir, len: o.len }))),
             None => std::fs::File::open(path).map(|f| File(Inner::Real(f))),
         }
     }
@@ -66,8 +124,8 @@ impl File {
     }
     pub fn metadata(&self) -> io::Result<Metadata> {
         match &self.0 {
-            Inner::Real(f) => f.metadata(),
-            Inner::Sim(_) => Err(io::Error::new(io::ErrorKind::Unsupported, "metadata of a simulated file")),
+            Inner::Real(f) => f.metadata().map(Metadata::Real),
+            Inner::Sim(_, m) => Ok(m.clone()),
         }
     }
 }
@@ -76,7 +134,7 @@ impl Read for File {
     fn read(&mut self, buf: &mut [u8]) -> io::Result<usize> {
         match &mut self.0 {
             Inner::Real(f) => f.read(buf),
-            Inner::Sim(r) => r.read(buf),
+            Inner::Sim(r, _) => r.read(buf),
         }
     }
 }
@@ -85,13 +143,13 @@ impl io::Write for File {
     fn write(&mut self, buf: &[u8]) -> io::Result<usize> {
         match &mut self.0 {
             Inner::Real(f) => f.write(buf),
-            Inner::Sim(_) => Err(io::Error::new(io::ErrorKind::Unsupported, "write to a simulated file")),
+            Inner::Sim(..) => Err(io::Error::new(io::ErrorKind::Unsupported, "write to a simulated file")),
         }
     }
     fn flush(&mut self) -> io::Result<()> {
         match &mut self.0 {
             Inner::Real(f) => f.flush(),
-            Inner::Sim(_) => Ok(()),
+            Inner::Sim(..) => Ok(()),
         }
     }
 }
@@ -117,6 +175,42 @@ pub trait PathExt {
     fn verif_is_file(&self) -> bool;
     fn verif_is_dir(&self) -> bool;
     fn verif_exists(&self) -> bool;
+}
+
+impl PathExt for Metadata {
+    fn verif_is_file(&self) -> bool {
+        self.is_file()
+    }
+    fn verif_is_dir(&self) -> bool {
+        self.is_dir()
+    }
+    fn verif_exists(&self) -> bool {
+        true
+    }
+}
+
+impl PathExt for std::fs::Metadata {
+    fn verif_is_file(&self) -> bool {
+        self.is_file()
+    }
+    fn verif_is_dir(&self) -> bool {
+        self.is_dir()
+    }
+    fn verif_exists(&self) -> bool {
+        true
+    }
+}
+
+impl PathExt for std::fs::FileType {
+    fn verif_is_file(&self) -> bool {
+        self.is_file()
+    }
+    fn verif_is_dir(&self) -> bool {
+        self.is_dir()
+    }
+    fn verif_exists(&self) -> bool {
+        true
+    }
 }
 
 impl PathExt for Path {
